@@ -3,6 +3,7 @@
 
 mod m_cchan;
 mod m_cping;
+mod m_crun;
 mod m_seq;
 mod m_signals;
 mod m_timing;
@@ -20,6 +21,7 @@ fn main() {
     match args.get(1).map(|s| s.as_str()) {
         Some("token") => m_token::run(),
         Some("cping") => m_cping::run(),
+        Some("crun") => m_crun::run(),
         Some("cchan") => m_cchan::run(),
         Some("cchan0") => m_cchan::run0(),
         Some("timing") => m_timing::run(),
